@@ -397,3 +397,98 @@ Proof. intros I1 I2 Hne Hlen Htl. unfold denote.
   - unfold Inv in I2. eapply Forall_impl; [|exact I2]. intros cy [_ H]; exact H.
   - unfold Inv in I1. eapply Forall_impl; [|exact I1]. intros cy [_ H]; exact H. Qed.
 End SameUnitary.
+
+(* ---- insert_circuit: a whole sub-circuit at one (resolved) cycle index ----------------------------- *)
+Lemma firstn_update_at {A} i f (l : list A) : firstn i (update_at i f l) = firstn i l.
+Proof. revert i. induction l as [|y t IH]; intros i; destruct i; simpl; auto. rewrite IH. reflexivity. Qed.
+
+Lemma firstn_insert_at {A} i (x : A) l : i <= length l -> firstn i (insert_at i x l) = firstn i l.
+Proof. revert i. induction l as [|y t IH]; intros i Hi; destruct i; simpl in *; auto; try lia. rewrite IH by lia. reflexivity. Qed.
+
+Lemma length_update_at {A} i f (l : list A) : length (update_at i f l) = length l.
+Proof. revert i. induction l as [|y t IH]; intros i; destruct i; simpl; auto. Qed.
+
+Lemma length_insert_at {A} i (x : A) l : length (insert_at i x l) = S (length l).
+Proof. revert i. induction l as [|y t IH]; intros i; destruct i; simpl; auto. Qed.
+
+(* one insert at an in-range non-negative index i: the prefix before i is untouched
+   and the operation is put in front of everything from cycle i on *)
+Lemma insert_at_index c i o q :
+  valid_op c o = true -> i < ncyc c ->
+  let c' := fst (insert c (Z.of_nat i) o) in
+  firstn i (cycles c') = firstn i (cycles c)
+  /\ tlc (skipn i (cycles c')) q = one q o ++ tlc (skipn i (cycles c)) q
+  /\ i < ncyc c' /\ nq c' = nq c /\ rads c' = rads c.
+Proof. intros Hv Hi c'. unfold c', insert. rewrite Hv. cbn [negb].
+  assert (E0 : Nat.eqb (ncyc c) 0 = false) by (apply Nat.eqb_neq; lia). rewrite E0.
+  assert (R : in_rangeZ (Z.of_nat i) (ncyc c) = true).
+  { unfold in_rangeZ. apply andb_true_iff. split; [apply Z.ltb_lt|apply Z.leb_le]; lia. }
+  rewrite R. cbn [negb andb].
+  assert (N : normZ (Z.of_nat i) (ncyc c) = i).
+  { unfold normZ. destruct (Z.ltb_spec (Z.of_nat i) 0); [lia|]. apply Nat2Z.id. }
+  rewrite N. unfold ncyc in *.
+  destruct (unoccupied (cycle_at c i) (o_loc o)) eqn:U; unfold place; cbn [fst cycles nq rads].
+  - rewrite firstn_update_at, length_update_at. repeat split; auto.
+    pose proof (place_tl (cycles c) i o q Hi U) as P.
+    rewrite (firstn_skipn_tlc (update_at i (fun cy => cy ++ [o]) (cycles c)) i q) in P.
+    rewrite firstn_update_at in P. apply app_inv_head in P. exact P.
+  - rewrite firstn_insert_at by lia. rewrite length_insert_at. repeat split; auto; try lia.
+    pose proof (newcycle_tl (cycles c) i o q (Nat.lt_le_incl _ _ Hi)) as P.
+    rewrite (firstn_skipn_tlc (insert_at i [o] (cycles c)) i q) in P.
+    rewrite firstn_insert_at in P by lia. apply app_inv_head in P. exact P. Qed.
+
+(* inserting a list of operations one after the other at the same index puts them,
+   in REVERSE order of insertion, between the cycles before i and those from i on *)
+Lemma inserts_at_index ops : forall c i q,
+  (forall o c', In o ops -> nq c' = nq c -> rads c' = rads c -> valid_op c' o = true) ->
+  i < ncyc c ->
+  let r := seq_ops (fun c o => insert c (Z.of_nat i) o) c ops in
+  snd r = OkU
+  /\ firstn i (cycles (fst r)) = firstn i (cycles c)
+  /\ tlc (skipn i (cycles (fst r))) q = filter (touches q) (rev ops) ++ tlc (skipn i (cycles c)) q.
+Proof. induction ops as [|o t IH]; intros c i q Hv Hi; cbn [seq_ops rev filter fst snd app].
+  - repeat split; reflexivity.
+  - assert (Hvo : valid_op c o = true) by (apply Hv; auto; left; reflexivity).
+    destruct (insert_at_index c i o q Hvo Hi) as (F & S1 & Hi' & Hn & Hr).
+    destruct (insert c (Z.of_nat i) o) as [c1 out1] eqn:E. cbn [fst] in *.
+    assert (Hok : match out1 with Err _ => False | _ => True end).
+    { unfold insert in E. rewrite Hvo in E. cbn [negb] in E.
+      repeat match type of E with context[if ?b then _ else _] => destruct b end; inversion E; exact I. }
+    destruct out1; try contradiction;
+    (specialize (IH c1 i q);
+     destruct IH as (O & F2 & S2); [intros o' c' Ho' H1 H2; apply Hv; [right; exact Ho'|congruence|congruence]|exact Hi'|];
+     repeat split; [exact O|rewrite F2; exact F|rewrite S2, S1, filter_app, <- app_assoc; reflexivity]). Qed.
+
+(* reverse iteration, reversed, shows each qudit its forward timeline *)
+Lemma rev_riter_timeline cs q : Forall amo cs -> filter (touches q) (rev (riter_ops cs)) = tlc cs q.
+Proof. intros H. unfold riter_ops, tlc.
+  induction H as [|cy t Hcy _ IH]; cbn [rev flat_map]; [reflexivity|].
+  rewrite flat_map_app. cbn [flat_map]. rewrite app_nil_r, rev_app_distr, filter_app, IH. f_equal.
+  unfold rev_cycle. rewrite rev_involutive. apply filter_sorted. exact Hcy. Qed.
+
+(* insert_circuit (operations inserted individually) with an index that resolves
+   inside the circuit: the sub-circuit's operations, relabelled through `location`
+   and in their own order (the reverse of the reversed iteration the code uses),
+   sit between the cycles before the index and those from the index on. *)
+Theorem insert_circuit_tl c ci sub location q i :
+  nq sub = length location ->
+  insert_index c ci = Some i ->
+  (forall o c', In o (map (map_loc location) (riter_ops (cycles sub))) -> nq c' = nq c -> rads c' = rads c -> valid_op c' o = true) ->
+  let r := insert_circuit c ci sub location false in
+  snd r = OkU /\
+  tl (fst r) q = tlc (firstn i (cycles c)) q
+                 ++ filter (touches q) (rev (map (map_loc location) (riter_ops (cycles sub))))
+                 ++ tlc (skipn i (cycles c)) q.
+Proof. intros Hn Hidx Hv r. unfold r, insert_circuit. rewrite Hn, Nat.eqb_refl. cbn [negb].
+  pose proof (insert_index_lt c ci i Hidx) as Hi.
+  unfold insert_index in Hidx.
+  destruct (Nat.eqb_spec (ncyc c) 0) as [E0|E0]; [discriminate|].
+  assert (Hle : Z.leb (Z.of_nat (ncyc c)) ci = false /\
+                (if Z.ltb ci (- Z.of_nat (ncyc c)) then 0 else normZ ci (ncyc c)) = i).
+  { destruct (in_rangeZ ci (ncyc c)) eqn:R.
+    - unfold in_rangeZ in R. apply andb_true_iff in R as [R1 R2]. apply Z.ltb_lt in R1. apply Z.leb_le in R2.
+      split; [apply Z.leb_gt; lia|]. destruct (Z.ltb_spec ci (- Z.of_nat (ncyc c))); [lia|]. inversion Hidx. reflexivity.
+    - destruct (Z.ltb_spec ci (- Z.of_nat (ncyc c))); [|discriminate]. split; [apply Z.leb_gt; lia|]. inversion Hidx. reflexivity. }
+  destruct Hle as [Hle Hi2]. rewrite Hle, Hi2.
+  destruct (inserts_at_index (map (map_loc location) (riter_ops (cycles sub))) c i q Hv Hi) as (O & F & S).
+  split; [exact O|]. unfold tl. rewrite (firstn_skipn_tlc _ i q), F, S. reflexivity. Qed.
